@@ -58,7 +58,7 @@ def coversAll (b : Bits) (p : Vec) (ux uy : Int) (w h : Nat) (off extra : Int) :
 /-- the same request evaluated through the models of the specialised paths (Model/FetchFast.lean) wherever
     the guard of one of them holds (the guards of the theorems in Props/C08Fast.lean); elsewhere, and for the
     parts no specialised path covers, the reference model.  Returns the rows and a tag naming the path. -/
-def compositeFast (fmt : Nat) (b : Bits) (m : Transform) (srcX srcY : Int) (width height : Nat) :
+def compositeFast (fmt mis : Nat) (b : Bits) (m : Transform) (srcX srcY : Int) (width height : Nat) :
     Option (List (List Nat)) × String :=
   let ref := compositeSrc b m srcX srcY width height
   match ref, setTransform m with
@@ -82,13 +82,13 @@ def compositeFast (fmt : Nat) (b : Bits) (m : Transform) (srcX srcY : Int) (widt
       else if b.filter = .nearest ∧ t.m00 = 0 ∧ t.m11 = 0 ∧ t.m01 = -65536 ∧ t.m10 = 65536 ∧ fmt = 0 ∧
           (let o := rotate90Origin t srcX srcY height
            decide (0 ≤ o.1 ∧ o.1 + height ≤ b.width ∧ 0 ≤ o.2 ∧ o.2 + width ≤ b.height)) then
-        (some (fastRotate90 b t srcX srcY width height), "rotate-90")
+        (some (bltRotated90 b (rotate90Origin t srcX srcY height).1 (rotate90Origin t srcX srcY height).2 16 mis width height), "rotate-90")
       else if b.filter = .nearest ∧ t.m00 = 0 ∧ t.m11 = 0 ∧ t.m01 = 65536 ∧ t.m10 = -65536 ∧ fmt = 0 ∧
           (let o := rotate270Origin t srcX srcY width
            decide (0 ≤ o.1 ∧ o.1 + height ≤ b.width ∧ 0 ≤ o.2 ∧ o.2 + width ≤ b.height)) then
-        (some (fastRotate270 b t srcX srcY width height), "rotate-270")
+        (some (bltRotated270 b (rotate270Origin t srcX srcY width).1 (rotate270Origin t srcX srcY width).2 16 mis width height), "rotate-270")
       else if b.filter = .bilinear ∧ scale ∧ smallStep ∧ fmt = 0 ∧ coversAll b p t.m00 t.m11 width height 32768 1 then
-        (fastBilinearCover b t srcX srcY width height, "bilinear-cover-iter")
+        (fastBilinearCoverCached b t srcX srcY width height, "bilinear-cover-iter")
       else
         let rows (f : Int → Option (List Nat)) : Option (List (List Nat)) :=
           some (scanlineLoop f height srcY (List.replicate width 0))
@@ -121,7 +121,7 @@ def request (fast : Bool) : P String := do
                         | 0 => p
                         | 1 => p ||| 0xff000000
                         | _ => (p % 256) <<< 24 }
-    let (res, tag) := if fast then compositeFast fmt b m sx sy w h else (compositeSrc b m sx sy w h, "")
+    let (res, tag) := if fast then compositeFast fmt ((dy * dw + dx) % 16) b m sx sy w h else (compositeSrc b m sx sy w h, "")
     let cell (x y : Nat) : String :=
       if x < dx ∨ x ≥ dx + w ∨ y < dy ∨ y ≥ dy + h then fmtHex prefill else
       match res with
